@@ -197,9 +197,9 @@ def aero(rep, tier, timeout):
     left-half vs right-half symmetric models."""
     from symoas import pipe
 
-    cfgs = [("full 2x3", 2, 3, False), ("symmetric halves 2x2", 2, 2, True)]
+    cfgs = [("full 2x3", 2, 3, False), ("symmetric halves 2x2", 2, 2, True), ("full 3x3", 3, 3, False), ("symmetric halves 3x3", 3, 3, True)]
     if tier == "thorough":
-        cfgs += [("full 3x3", 3, 3, False), ("symmetric halves 2x3", 2, 3, True), ("full 2x5", 2, 5, False)]
+        cfgs += [("symmetric halves 2x3", 2, 3, True), ("full 2x5", 2, 5, False), ("full 4x5", 4, 5, False), ("symmetric halves 4x4", 4, 4, True), ("full 3x7", 3, 7, False)]
     for (lab, nx, ny, symm) in cfgs:
         sA = K.surface(nx, ny, symm)
         sB = K.surface(nx, ny, symm, right=True) if symm else sA
